@@ -85,6 +85,7 @@ func (*c13) Oracle(ci, oi any) []hx.Violation {
 			revs = obs.Revs[k]
 		}
 		n := 0              // revisions stored so far
+		lastOK := 0         // the revision stored by the most recent operation that returned without error
 		var before []string // statuses of the stored revisions before the step
 		for j, o := range ops {
 			if j >= len(steps) {
@@ -94,6 +95,15 @@ func (*c13) Oracle(ci, oi any) []hx.Violation {
 			st := steps[j]
 			prev := before
 			before = st.Statuses
+			// an operation that fails or is rejected leaves the status of every earlier revision
+			// alone: the deployed revision stays the deployed one
+			if !st.OK {
+				for v := 1; v <= len(prev) && v <= len(st.Statuses); v++ {
+					if prev[v-1] != st.Statuses[v-1] {
+						add("failed-step-changed-status", fmt.Sprintf("step %d (%s on %s) returned an error but revision %d went from %s to %s", i, c13Mode(o), c13Names[k], v, prev[v-1], st.Statuses[v-1]))
+					}
+				}
+			}
 			if len(st.Statuses) == n {
 				continue // nothing was stored by this step
 			}
@@ -101,20 +111,40 @@ func (*c13) Oracle(ci, oi any) []hx.Violation {
 				add("revision-count", fmt.Sprintf("step %d (%s) changed the number of stored revisions from %d to %d", i, o.Kind, n, len(st.Statuses)))
 				break
 			}
-			// the revision values are carried forward from: the highest revision that had status
-			// deployed before the step; only when there is none, the newest one
-			base := 0
-			for v := len(prev); v >= 1; v-- {
-				if prev[v-1] == "deployed" {
-					base = v
-					break
-				}
-			}
+			// the revision values are carried forward from — the currently deployed one — is the
+			// revision stored by the most recent operation that returned without error, however
+			// many failed ones were stored after it; while no operation has returned without error,
+			// the newest revision.  The stored statuses must say the same (the highest revision
+			// with status deployed before the step; when there is none the newest one).
+			base := lastOK
 			if base == 0 {
 				base = len(prev)
 			}
+			obsBase := 0
+			for v := len(prev); v >= 1; v-- {
+				if prev[v-1] == "deployed" {
+					obsBase = v
+					break
+				}
+			}
+			if obsBase == 0 {
+				obsBase = len(prev)
+			}
+			if obsBase != base {
+				add("deployed-revision", fmt.Sprintf("step %d (%s on %s): the most recent operation that returned without error stored revision %d, but by the stored statuses %v the revision to carry forward from is %d", i, c13Mode(o), c13Names[k], lastOK, prev, obsBase))
+			}
+			if st.OK {
+				for v := 1; v <= n; v++ {
+					if st.Statuses[v-1] == "deployed" {
+						add("deployed-not-unique", fmt.Sprintf("step %d (%s on %s) returned without error and stored revision %d, but revision %d still has status deployed", i, c13Mode(o), c13Names[k], n+1, v))
+					}
+				}
+			}
 			cur := rev(base)
 			n++
+			if st.OK {
+				lastOK = n
+			}
 			nw := rev(n)
 			if nw == nil {
 				add("revision-missing", fmt.Sprintf("step %d (%s) stored revision %d but it is not in the history", i, o.Kind, n))
